@@ -61,21 +61,78 @@ def _lock_names(e: ast.AST) -> List[str]:
     return out
 
 
+def _lock_method_call(st: ast.AST, method: str) -> Optional[ast.AST]:
+    """Receiver of the expression statement ``<lock>.<method>()`` (a blocking acquire / a release), else None."""
+    if not (isinstance(st, ast.Expr) and isinstance(st.value, ast.Call) and isinstance(st.value.func, ast.Attribute) and st.value.func.attr == method):
+        return None
+    c = st.value
+    if method == "release" and (c.args or c.keywords):
+        return None
+    if method == "acquire":
+        # acquire() / acquire(True) / acquire(blocking=True): returns only with the lock held
+        if len(c.args) > 1 or any(k.arg != "blocking" for k in c.keywords):
+            return None
+        flags = list(c.args) + [k.value for k in c.keywords]
+        if any(not (isinstance(x, ast.Constant) and x.value is True) for x in flags):
+            return None
+    return c.func.value
+
+
+def _siblings(st: ast.AST) -> List[ast.AST]:
+    p = parent(st)
+    if p is None:
+        return []
+    for _f, v in ast.iter_fields(p):
+        if isinstance(v, list) and any(x is st for x in v):
+            return v
+    return []
+
+
+def _try_locks(t: ast.AST) -> List[str]:
+    """Locks held throughout the body of ``<lock>.acquire(); try: ... finally: <lock>.release()``: the statement right
+    before the ``try`` is the blocking acquire and the ``finally`` releases the same lock (the explicit spelling of
+    ``with <lock>:``)."""
+    if not isinstance(t, ast.Try) or not t.finalbody:
+        return []
+    sibs = _siblings(t)
+    i = next((k for k, x in enumerate(sibs) if x is t), 0)
+    if i == 0:
+        return []
+    acq = _lock_method_call(sibs[i - 1], "acquire")
+    if acq is None:
+        return []
+    names = _lock_names(acq)
+    for st in t.finalbody:
+        rel = _lock_method_call(st, "release")
+        if rel is not None and set(_lock_names(rel)) & set(names):
+            return names
+    return []
+
+
+def _in_final(node: ast.AST, t: ast.Try) -> bool:
+    return any(x is node for s in t.finalbody for x in ast.walk(s))
+
+
 def locks_held(node: ast.AST) -> List[str]:
-    """Dotted names of context managers of every enclosing ``with`` (innermost first)."""
+    """Dotted names of context managers of every enclosing ``with`` (innermost first); an enclosing
+    ``acquire(); try: ... finally: release()`` counts as the ``with`` it spells out."""
     out: List[str] = []
     for a in ancestors(node):
         if isinstance(a, (ast.With, ast.AsyncWith)):
             for it in a.items:
                 out.extend(_lock_names(it.context_expr))
+        if isinstance(a, ast.Try) and not _in_final(node, a):
+            out.extend(_try_locks(a))
         if isinstance(a, FuncNode + (ast.Lambda,)):
             break
     return out
 
 
-def enclosing_with(node: ast.AST, lock: str) -> Optional[ast.With]:
+def enclosing_with(node: ast.AST, lock: str) -> Optional[ast.AST]:
     for a in ancestors(node):
         if isinstance(a, ast.With) and any(lock in _lock_names(it.context_expr) for it in a.items):
+            return a
+        if isinstance(a, ast.Try) and not _in_final(node, a) and lock in _try_locks(a):
             return a
         if isinstance(a, FuncNode + (ast.Lambda,)):
             return None
@@ -399,8 +456,14 @@ def run(repo: Repo, R: Report) -> None:
     )
     R.undecided("actual schedules (nothing is executed); fairness / liveness")
 
-    # ---- shared state discovered from __init__ -------------------------------
-    tinit = repo.func(F, f"{TRANSPORT}.__init__")
+    # the methods are analysed in normal form (private helpers with a tail return inlined at their call, module
+    # constants substituted, if/else of one assignment merged); a helper absorbed at every call is analysed there,
+    # in the context (locks held, channel known) it really runs in
+    nmethods = _normal_methods(repo, mod, {TRANSPORT: tcls, SUBSCRIPTION: scls})
+
+    # ---- shared state discovered from __init__ (normal form: a set-up helper of the constructor is part of it) ----
+    repo.func(F, f"{TRANSPORT}.__init__")  # anchor
+    tinit = nmethods[TRANSPORT]["__init__"]
     shared_map = None
     map_lock = None
     factory: Optional[ast.AST] = None
@@ -437,11 +500,6 @@ def run(repo: Repo, R: Report) -> None:
     if shared_map is None:
         raise AnalysisError("shared channel map not found in InMemorySemantivaTransport.__init__")
     is_defaultdict = factory is not None
-
-    # the methods are analysed in normal form (private helpers with a tail return inlined at their call, module
-    # constants substituted, if/else of one assignment merged); a helper absorbed at every call is analysed there,
-    # in the context (locks held, channel known) it really runs in
-    nmethods = _normal_methods(repo, mod, {TRANSPORT: tcls, SUBSCRIPTION: scls})
 
     # local spellings of the standard matcher in this module
     _MATCHERS.clear()
@@ -555,6 +613,9 @@ def run(repo: Repo, R: Report) -> None:
                         + (f" (rewritten by `{norm(rb1[0])[:80]}`)" if rb1 else ""), c.lineno)
     if n_ctor == 0:
         raise AnalysisError("no construction of InMemorySubscription found")
+
+    # ---- the map and its lock are the same objects for the life of the transport ---------------------------
+    _guard_identity(repo, R, mod, tcls, nmethods[TRANSPORT], shared_map, map_lock, sub_map)
 
     # ---- map access sites --------------------------------------------------------
     r_map = R.rule("C14-D1-map-lockset", "every access to the shared channel map that can insert (subscript on the defaultdict, setdefault, store) holds the map-level lock; iteration is over a snapshot; entries are never removed or replaced while a publisher may hold them", 2)
@@ -768,6 +829,9 @@ def run(repo: Repo, R: Report) -> None:
                 and isinstance(c.func.value, ast.Name) and c.func.value.id == qv_ for c in ast.walk(fn_)):
             R.violation(r_once, F, qn_, "consumer pop", "messages are taken from a channel queue by a function whose result the iterator does not hand on (they are never yielded)", fn_.lineno)
 
+    # ---- "no message" and "a message" cannot be confused -------------------------------------------------------
+    _message_truthiness(repo, R, mod, prov, deque_bindings, hand, it, top)
+
     # ---- scan completeness ------------------------------------------------------------------------------
     r_scan = R.rule("C14-D3-scan-complete", "state a subscription keeps between scans to skip channels (a progress marker used to slice or to skip the scan) is computed from the snapshot that was actually scanned, never from another read of the live map", 0)
     sp = prov[SUBSCRIPTION]
@@ -798,6 +862,241 @@ def run(repo: Repo, R: Report) -> None:
                     live = [x for x in ast.walk(n.value) if sp.kind(x, mfn)[0] == K_MAP]
                     R.check(not live, r_scan, F, f"{SUBSCRIPTION}.{mfn.name}", norm(n),
                             f"the scan-progress marker self.{t.attr} is taken from a fresh read of the live channel map, not from the snapshot that was scanned: a channel created between the snapshot and this read counts as scanned without ever having been matched, and its messages are never delivered to this subscription", n.lineno)
+
+
+CONTAINER_BASES = {"tuple", "list", "dict", "set", "frozenset", "str", "bytes", "bytearray", "deque", "OrderedDict", "defaultdict", "Counter", "ChainMap",
+                   "UserDict", "UserList", "UserString", "Mapping", "MutableMapping", "Sequence", "MutableSequence", "Set", "MutableSet", "Collection", "Sized"}
+
+
+def _truth_tested(fn: ast.AST, names: Set[str]) -> Optional[ast.AST]:
+    """A place in *fn* where the truth value (not the identity) of a local in *names* decides a branch."""
+    def hit(e: ast.AST) -> bool:
+        if isinstance(e, ast.Name):
+            return e.id in names
+        if isinstance(e, ast.UnaryOp) and isinstance(e.op, ast.Not):
+            return hit(e.operand)
+        if isinstance(e, ast.BoolOp):
+            return any(hit(v) for v in e.values)
+        if isinstance(e, ast.NamedExpr):
+            return hit(e.value) or (isinstance(e.target, ast.Name) and e.target.id in names)
+        if isinstance(e, ast.Call) and isinstance(e.func, ast.Name) and e.func.id == "bool" and len(e.args) == 1:
+            return hit(e.args[0])
+        return False
+    for n in ast.walk(fn):
+        tests: List[ast.AST] = []
+        if isinstance(n, (ast.If, ast.While, ast.IfExp, ast.Assert)):
+            tests = [n.test]
+        elif isinstance(n, ast.comprehension):
+            tests = list(n.ifs)
+        for t in tests:
+            if hit(t):
+                return t
+    return None
+
+
+def _message_truthiness(repo: Repo, R: Report, mod, prov, deque_bindings, hand: "_HandOver", it: ast.AST, top: dict) -> None:
+    """The consumer tells "the queue was empty" (None) from "a message was taken" by the truth value of what it popped.
+    That is only right when a message object can never be false: the class the producer instantiates (wherever it is
+    defined) has no ``__bool__`` / ``__len__`` and is not an empty-able container."""
+    r_t = R.rule("C14-D2-message-truthy", "where the consumer decides by truth value whether it took a message, the message class the producer instantiates can never be false (no __bool__ / __len__ anywhere in its MRO, not an empty-able container type): otherwise a popped message is taken for 'queue empty' and dropped", 1)
+    sp = prov[SUBSCRIPTION]
+    per_fn: List[Tuple[ast.AST, Set[str]]] = [(it, {m for _s, m, _q, _c in top["pops"] if m})]
+    for name, summ in hand.summaries.items():
+        if summ:
+            per_fn.append((sp.methods[name], {m for _s, m, _q, _c in summ["pops"] if m}))
+    used: List[Tuple[ast.AST, ast.AST]] = []
+    for fn_, names in per_fn:
+        if names:
+            t = _truth_tested(fn_, names)
+            if t is not None:
+                used.append((fn_, t))
+    if not used:
+        R.ok(r_t, F, f"{SUBSCRIPTION}.__iter__", "popped message tested by identity", "no truth-value test of a popped message")
+        return
+    ufn, utest = used[0]
+    # the class of what producers append
+    classes: List[Tuple[object, ast.ClassDef, ast.AST]] = []
+    for qn, fn, qv, _lv, _kv in deque_bindings:
+        if not qn.startswith(TRANSPORT + "."):
+            continue
+        for c in ast.walk(fn):
+            if isinstance(c, ast.Call) and isinstance(c.func, ast.Attribute) and isinstance(c.func.value, ast.Name) and c.func.value.id == qv \
+                    and c.func.attr in ("append", "appendleft") and c.args:
+                vals = _assigned(fn, c.args[0].id) if isinstance(c.args[0], ast.Name) else [c.args[0]]
+                for v in vals:
+                    if isinstance(v, ast.Call):
+                        r_ = repo.resolve_name(mod, v.func, v)
+                        if r_ is not None and isinstance(r_[1], ast.ClassDef) and not any(x[1] is r_[1] for x in classes):
+                            classes.append((r_[0], r_[1], v))
+    if not classes:
+        R.note("C14-D2-message-truthy: the class of the published message object is not resolvable inside the package; truthiness assumed")
+        R.ok(r_t, F, f"{SUBSCRIPTION}.{getattr(ufn, 'name', '?')}", norm(utest), "message class not in the package")
+        return
+    for cmod, ccls, ctor in classes:
+        repo.module(cmod.rel)
+        bad: Optional[Tuple[str, ast.AST, str, str]] = None
+        for m_, c_ in repo.mro(cmod, ccls):
+            for st in c_.body:
+                nm = st.name if isinstance(st, FuncNode) else next((t.id for t in getattr(st, "targets", []) if isinstance(t, ast.Name)), None) if isinstance(st, ast.Assign) else None
+                if nm in ("__bool__", "__len__") and bad is None:
+                    bad = (m_.rel, st, c_.name, f"{c_.name}.{nm} decides the truth value of a message")
+            for b in c_.bases:
+                bn = (dotted_name(b.value if isinstance(b, ast.Subscript) else b) or "").split(".")[-1]
+                r_ = repo.resolve_name(m_, b.value if isinstance(b, ast.Subscript) else b, c_)
+                if r_ is not None and isinstance(r_[1], ast.ClassDef):
+                    continue
+                if bn in CONTAINER_BASES and bad is None:
+                    bad = (m_.rel, c_, c_.name, f"{c_.name} is a {bn}: an empty instance is false")
+                if bn == "NamedTuple" and not any(isinstance(st, ast.AnnAssign) for st in c_.body) and bad is None:
+                    bad = (m_.rel, c_, c_.name, f"{c_.name} is a NamedTuple without fields: every instance is false")
+        where = f"`{norm(utest)}` in {SUBSCRIPTION}.{getattr(ufn, 'name', '?')}"
+        if bad is not None:
+            rel_, node_, cname_, txt = bad
+            R.violation(r_t, rel_, cname_ if not isinstance(node_, FuncNode) else f"{cname_}.{node_.name}", norm(node_).split("\n")[0][:120],
+                        f"{txt}, but the consumer takes a false value for 'queue empty' ({where}): a message that evaluates false is popped from its channel and never yielded - it is lost", getattr(node_, "lineno", 0))
+        else:
+            R.ok(r_t, cmod.rel, ccls.name, f"class {ccls.name}", "instances are always true", ccls.lineno)
+
+
+def _recv_is_self(e: Optional[ast.AST]) -> bool:
+    return isinstance(e, ast.Name) and e.id == "self"
+
+
+def _dict_of(e: ast.AST) -> Optional[ast.AST]:
+    """``X`` when *e* is the attribute dictionary of X (``X.__dict__`` / ``vars(X)``)."""
+    if isinstance(e, ast.Attribute) and e.attr == "__dict__":
+        return e.value
+    if isinstance(e, ast.Call) and isinstance(e.func, ast.Name) and e.func.id == "vars" and len(e.args) == 1 and not e.keywords:
+        return e.args[0]
+    return None
+
+
+def _attr_rebinds(tree: ast.AST, names: Set[str]) -> List[Tuple[ast.AST, str, Optional[ast.AST], str]]:
+    """Sites in *tree* that bind or delete an attribute named in *names* on some object, whatever the spelling:
+    ``X.a = ..`` / ``X.a += ..`` / ``del X.a`` / ``for X.a in`` / ``with .. as X.a``, ``setattr(X, 'a', ..)`` /
+    ``delattr`` / ``object.__setattr__(X, 'a', ..)``, stores into ``X.__dict__`` / ``vars(X)`` (subscript, update, pop,
+    clear).  -> (node, attribute, receiver X, verb)."""
+    out: List[Tuple[ast.AST, str, Optional[ast.AST], str]] = []
+    for n in ast.walk(tree):
+        if isinstance(n, ast.Attribute) and n.attr in names and isinstance(n.ctx, (ast.Store, ast.Del)):
+            out.append((n, n.attr, n.value, "deleted" if isinstance(n.ctx, ast.Del) else "rebound"))
+        elif isinstance(n, ast.Call):
+            ca = call_attr(n)
+            consts = [a for a in n.args[:2] if isinstance(a, ast.Constant) and isinstance(a.value, str) and a.value in names]
+            if ca in ("setattr", "delattr", "__setattr__", "__delattr__") and consts:
+                recv = next((a for a in n.args[:2] if a is not consts[0]), None)
+                if isinstance(n.func, ast.Attribute) and len(n.args) == (1 if ca == "__delattr__" else 2) and n.args[0] is consts[0]:
+                    recv = n.func.value  # X.__setattr__('a', v)
+                out.append((n, consts[0].value, recv, "deleted" if ca in ("delattr", "__delattr__") else "rebound"))
+            elif isinstance(n.func, ast.Attribute) and _dict_of(n.func.value) is not None:
+                recv = _dict_of(n.func.value)
+                m = n.func.attr
+                hit: Optional[str] = None
+                if m == "clear":
+                    hit = sorted(names)[0]
+                elif m in ("pop", "setdefault", "__setitem__", "__delitem__") and n.args and isinstance(n.args[0], ast.Constant) and n.args[0].value in names:
+                    hit = n.args[0].value
+                elif m == "update":
+                    keys = [k.arg for k in n.keywords if k.arg] + [k.value for a in n.args if isinstance(a, ast.Dict) for k in a.keys if isinstance(k, ast.Constant)]
+                    hit = next((k for k in keys if k in names), None)
+                if hit is not None:
+                    out.append((n, hit, recv, "deleted" if m in ("clear", "pop", "__delitem__") else "rebound"))
+        elif isinstance(n, ast.Subscript) and isinstance(n.ctx, (ast.Store, ast.Del)) and _dict_of(n.value) is not None:
+            if isinstance(n.slice, ast.Constant) and n.slice.value in names:
+                out.append((n, n.slice.value, _dict_of(n.value), "deleted" if isinstance(n.ctx, ast.Del) else "rebound"))
+    return out
+
+
+def _guard_identity(repo: Repo, R: Report, mod, tcls: ast.ClassDef, tmethods: Dict[str, ast.AST], shared_map: str, map_lock: Optional[str], sub_map: Optional[str] = None) -> None:
+    """Mutual exclusion is a statement about ONE lock object, delivery about ONE map object: both are created by the
+    constructor and stay bound for the life of the transport.  A publisher that is inside ``with self.<lock>:`` holds the
+    object the attribute named when it entered; a method that binds a new lock (or map) to the attribute lets the next
+    publisher enter a critical section of its own (or file its message in a map no subscription reads)."""
+    r_id = R.rule("C14-D1-guard-identity", "the shared channel map and the lock that guards insertions into it are the same two objects for the whole life of the transport: bound by the constructor only - no method rebinds or deletes the attributes (assignment, setattr, __dict__), re-runs the constructor, or releases the lock other than as the `finally` of its own acquire", 1)
+    roles = {shared_map: "channel map"}
+    if map_lock is not None:
+        roles[map_lock] = "map lock"
+    names = set(roles)
+
+    def why(attr: str, verb: str) -> str:
+        if roles[attr] == "map lock":
+            return (f"the map lock self.{attr} is {verb} after construction: a publisher already inside `with self.{attr}:` holds the old lock object, the next one "
+                    "takes the new one, both run the creation of a channel's queue at the same time and the second store discards the queue the first one appends to - a message is lost")
+        return (f"the channel map self.{attr} is {verb} after construction: subscriptions (and publishers that already fetched an entry) keep the old map, "
+                "later publishers file their messages in the new one - messages are never delivered to the existing matching subscriptions")
+
+    # constructor-only helpers that were not absorbed into the normal form of __init__
+    raw_init = next((n for n in tcls.body if isinstance(n, FuncNode) and n.name == "__init__"), None)
+
+    def ctor_only(name: str) -> bool:
+        if not name.startswith("_") or name.startswith("__") or raw_init is None:
+            return False
+        refs = [x for x in ast.walk(mod.tree) if (isinstance(x, ast.Attribute) and x.attr == name) or (isinstance(x, ast.Name) and x.id == name)]
+        in_init = {id(x) for x in ast.walk(raw_init)}
+        ok = bool(refs) and all(id(x) in in_init and isinstance(x, ast.Attribute) and _recv_is_self(x.value) and isinstance(parent(x), ast.Call) and parent(x).func is x for x in refs)
+        return ok and not any(m is not mod and re.search(r"\b%s\b" % re.escape(name), m.source) for m in repo.modules.values())
+
+    seen_sites: Set[Tuple[str, Tuple[int, int]]] = set()
+
+    def report(qn: str, rel: str, node: ast.AST, attr: str, verb: str) -> None:
+        key = (getattr(node, "lineno", 0), getattr(node, "col_offset", 0))
+        if (rel, key) in seen_sites:
+            return
+        seen_sites.add((rel, key))
+        R.violation(r_id, rel, qn, norm(stmt(node)), why(attr, verb), getattr(node, "lineno", 0))
+
+    # (1) methods of the transport (normal form; nested functions included) other than the constructor
+    for k, f_ in tmethods.items():
+        if k == "__init__" or ctor_only(k):
+            continue
+        qn = f"{TRANSPORT}.{k}"
+        for node, attr, recv, verb in _attr_rebinds(f_, names):
+            # through self; through another receiver only the lock (an object of another class, e.g. the subscription
+            # just built, may have an attribute of its own that is called like the map)
+            if _recv_is_self(recv) or attr == map_lock:
+                report(qn, F, node, attr, verb)
+        for c in ast.walk(f_):
+            if isinstance(c, ast.Call) and isinstance(c.func, ast.Attribute) and c.func.attr == "__init__" and (
+                    _recv_is_self(c.func.value) or (c.args and _recv_is_self(c.args[0]) and not (isinstance(c.func.value, ast.Call) and call_attr(c.func.value) == "super"))):
+                R.violation(r_id, F, qn, norm(stmt(c)), "the constructor is run again on a live transport: " + why(shared_map, "re-created"), c.lineno)
+    # (2) the rest of the module, subclasses, and any module that names the attributes: a store through another receiver
+    #     (`transport.<lock> = ...`), or through self in a subclass of the transport
+    sub_methods: Set[int] = set()
+    for smod, scls_ in repo.subclasses(tcls):
+        for m_ in scls_.body:
+            if isinstance(m_, FuncNode) and m_.name != "__init__":
+                sub_methods.add(id(m_))
+                for node, attr, recv, verb in _attr_rebinds(m_, names):
+                    report(f"{scls_.name}.{m_.name}", smod.rel, node, attr, verb)
+    t_nodes = {id(x) for m_ in tcls.body for x in ast.walk(m_)}
+    word = re.compile("|".join(r"\b%s\b" % re.escape(a) for a in sorted(names)))
+    for rel, m in repo.modules.items():
+        if m is not mod and not word.search(m.source):
+            continue
+        if m is not mod:
+            repo.module(rel)  # consulted
+        for node, attr, recv, verb in _attr_rebinds(m.tree, names):
+            if id(node) in t_nodes or recv is None or _recv_is_self(recv) or (isinstance(recv, ast.Name) and recv.id == "cls"):
+                continue  # self-stores of the transport were judged above; another class's own attribute of that name is not ours
+            if m is mod and attr == sub_map and attr != map_lock:
+                continue  # the subscription's own attribute of that name, set from outside
+            fn_ = next((a for a in ancestors(node) if isinstance(a, FuncNode)), None)
+            report(qualname_of(fn_) if fn_ is not None else "<module>", rel, node, attr, verb)
+    # (3) the lock is released only by the `finally` that belongs to its acquire
+    if map_lock is not None:
+        lock_d = f"self.{map_lock}"
+        for k, f_ in tmethods.items():
+            for c in ast.walk(f_):
+                if not (isinstance(c, ast.Call) and isinstance(c.func, ast.Attribute) and c.func.attr in ("release", "_release_save", "__exit__")):
+                    continue
+                if lock_d not in _lock_names(c.func.value):
+                    continue
+                st_ = stmt(c)
+                t = parent(st_)
+                paired = isinstance(t, ast.Try) and any(x is st_ for x in t.finalbody) and lock_d in _try_locks(t)
+                R.check(paired, r_id, F, f"{TRANSPORT}.{k}", norm(st_), f"the map lock self.{map_lock} is released by code that did not acquire it (not the `finally` of `self.{map_lock}.acquire(); try:`): a publisher inside its critical section loses the exclusion it relies on, a second publisher creates the same channel's queue at the same time and one message is lost", c.lineno)
+    for attr in sorted(names):
+        R.ok(r_id, F, f"{TRANSPORT}.__init__", f"self.{attr}", f"{roles[attr]} bound by the constructor")
 
 
 def _normal_methods(repo: Repo, mod, classes: Dict[str, ast.ClassDef]) -> Dict[str, Dict[str, ast.AST]]:
@@ -1321,6 +1620,8 @@ def _pop_guarded(fn: ast.AST, w: ast.AST, pop: ast.Call, qv: str) -> bool:
         prev = a
     g = CFG(fn, may_raise=lambda part: set())
     wn = g.nodes_for(w)
+    if not wn and isinstance(w, ast.Try) and w.body:
+        wn = g.nodes_for(w.body[0])  # critical section spelled acquire/try/finally: it starts at the first statement of the body
     st_ = stmt(pop)
     pn = g.nodes_for(st_)
     if not wn or not pn:
